@@ -284,19 +284,20 @@ func HarnessC03Hist() {
 		or(and(a, b), c), and(or(a, b), c), or(a, b, c), or(c, a),
 	}
 	d := verifC03Data("c03h.updog")
+	// caches without data-dependent eviction: none, never-evicting, LRU that evicts at once,
+	// LRU that never evicts. (Eviction order itself is C07's subject; which Gets hit is what
+	// matters here, and "always" / "never" are the two extremes.)
+	cacheKind := verifChoice("cache", 4)
 	n := 2
-	if verifTier() > 0 {
-		n = 3
+	if verifTier() > 0 && (cacheKind == 1 || cacheKind == 3) {
+		n = 3 // a third query only matters where earlier ones can have left something behind
 	}
 	var hist []*verifT
 	for i := 0; i < n; i++ {
 		hist = append(hist, list[verifChoice("tmpl", len(list))])
 	}
-	// caches without data-dependent eviction: none, never-evicting, LRU that evicts at once,
-	// LRU that never evicts. (Eviction order itself is C07's subject; which Gets hit is what
-	// matters here, and "always" / "never" are the two extremes.)
 	var cache Cache
-	switch verifChoice("cache", 4) {
+	switch cacheKind {
 	case 1:
 		cache = &verifKeepCache{}
 	case 2:
